@@ -550,13 +550,18 @@ type argSpy struct {
 	processors.DefaultInstantiationAwareComponentPostProcessor
 	args     map[string][]string
 	required bool
-	seen     bool
+	// the twin point G carries the same tag text under a USER tag, scanned by a user scanner with default settings
+	seenG, requiredG bool
+	seen             bool
 }
 
 func (a *argSpy) PostProcessAfterInstantiation(c any, name string) (bool, error) { return true, nil }
 
 func (a *argSpy) PostProcessProperties(props []*component_definition.Property, c any, name string) ([]*component_definition.Property, error) {
 	for _, p := range props {
+		if p.Field.StructField.Name == "G" && p.Tag == "c19tag" {
+			a.seenG, a.requiredG = true, p.IsRequired()
+		}
 		if p.Field.StructField.Name == "F" {
 			a.seen = true
 			a.args = map[string][]string{}
@@ -567,6 +572,11 @@ func (a *argSpy) PostProcessProperties(props []*component_definition.Property, c
 		}
 	}
 	return nil, nil
+}
+
+// c19Scan: a user tag scanner with the default settings of the embeddable scanner.
+type c19Scan struct {
+	processors.DefaultTagScanDefinitionRegistryPostProcessor
 }
 
 var dataTexts = []string{"hello, world", "a.example.com,b.example.com", "host=db1,Port=5432,Sslmode=disable", ",required=false", "x,required=false", "x,Required=false", "k=v", "plain", "a b", "trailing,", "q,qualifier=z", "1,2"}
@@ -601,11 +611,13 @@ func TestEndToEndDataIsNotTagText(t *testing.T) {
 			want = "pre-" + text + "-dflt"
 		}
 		dc := kit.DrawDecoys(t) // neighbouring fields of other tag kinds must not matter
-		typ := reflect.StructOf(dc.Around(reflect.StructField{Name: "F", Type: reflect.TypeOf(""), Tag: quoteTag(tagKey, tag)}))
+		typ := reflect.StructOf(dc.Around(reflect.StructField{Name: "F", Type: reflect.TypeOf(""), Tag: quoteTag(tagKey, tag)},
+			reflect.StructField{Name: "G", Type: reflect.TypeOf(""), Tag: quoteTag("c19tag", tag)}))
 		obj := reflect.New(typ)
 		doc, _ := yaml.Marshal(map[string]any{"c19": map[string]any{"text": text, "other": 1}})
 		spy := &argSpy{}
-		out := kit.RunApp(app.SetComponents(obj.Interface(), spy), app.SetConfigLoader(loader.NewRawLoader(doc)))
+		scan := &c19Scan{processors.DefaultTagScanDefinitionRegistryPostProcessor{NodeType: "c19custom", Tag: "c19tag"}}
+		out := kit.RunApp(app.SetComponents(obj.Interface(), spy, scan), app.SetConfigLoader(loader.NewRawLoader(doc)))
 		if out.OK() {
 			if err := dc.Check(obj); err != nil {
 				t.Fatalf("C19: %v%s", err, dc)
@@ -645,6 +657,12 @@ func TestEndToEndDataIsNotTagText(t *testing.T) {
 			if !ok || !reflect.DeepEqual(got, items) {
 				t.Fatalf("C19: %s:%q with c19.text=%q: argument %q is %q after processing, the tag states %q (all: %v)", tagKey, tag, text, name, got, items, spy.args)
 			}
+		}
+		if !spy.seenG {
+			t.Fatalf("HARNESS: the observing post-processor did not see the user-tagged twin point")
+		}
+		if spy.requiredG == ts.optional() {
+			t.Fatalf("C19: c19tag:%q (a user tag scanned by a user scanner with default settings): IsRequired()=%v, explicit required=false in the tag: %v", tag, spy.requiredG, ts.optional())
 		}
 		if spy.required == ts.optional() {
 			t.Fatalf("C19: %s:%q with c19.text=%q: IsRequired()=%v after processing, explicit required=false in the tag: %v", tagKey, tag, text, spy.required, ts.optional())
